@@ -69,6 +69,11 @@ func c04Gen(tp *Tapes) *c04Spec {
 		sp.Pool = append(sp.Pool, GenCtxDesc(g))
 	}
 	sp.Pool[0].BadKey = false
+	if sp.Prog.BadGlobal {
+		for i := range sp.Pool {
+			sp.Pool[i].BadKey = false // (never two invalid names: which one is reported depends on map order)
+		}
+	}
 	n := 2 + g.DrawD(5, 14)
 	f := tp.Fault
 	for i := 0; i < n; i++ {
@@ -82,7 +87,7 @@ func c04Gen(tp *Tapes) *c04Spec {
 		if g.Draw(6) == 5 {
 			e.SetGlob = fmt.Sprintf("G%d<&>", i)
 		}
-		if g.Draw(8) == 7 {
+		if g.Draw(8) == 7 && !sp.Prog.BadGlobal {
 			e.Rename = true
 		}
 		if g.Draw(6) == 5 {
